@@ -1,6 +1,6 @@
 (* Json/Stuck.v — the parse-error half of stickiness, where it holds: in the situations of the listed
-   rejections (mismatched or unopened closer, missing comma, stray comma, non-string key other than an
-   opening bracket, illegal byte) the same parse error is reported again by every further call, at the same
+   rejections (mismatched or unopened closer, missing comma, stray comma, non-string key,
+   illegal byte) the same parse error is reported again by every further call, at the same
    offset and with the state stack unchanged.  (After a missing colon it is not: Json/Sticky.v.) *)
 From Coq Require Import ZifyBool.
 From Verif Require Import Common.Base Common.Tactics Common.Lx Json.Model Json.Lex Json.Spec Json.Grammar
@@ -16,7 +16,7 @@ Inductive stuck_at (st : list Z) (need : bool) (prd : Z) : list Z -> Prop :=
 | stuck_comma r state : top st = Some state -> state <> S_Array -> state <> S_ObjectKey ->
     stuck_at st need prd (44 :: r)
 | stuck_key s2 t : st = S_ObjectKey :: t -> is_ws (hd0 s2) = false ->
-    hd0 s2 <> 34 -> hd0 s2 <> 44 -> hd0 s2 <> 125 -> hd0 s2 <> 123 -> hd0 s2 <> 91 -> stuck_at st need prd s2
+    hd0 s2 <> 34 -> hd0 s2 <> 44 -> hd0 s2 <> 125 -> stuck_at st need prd s2
 | stuck_illegal c r state : top st = Some state -> prd = 0 -> illegal_start c -> stuck_at st need prd (c :: r).
 
 Lemma ws_nil : ws []. Proof. constructor. Qed.
@@ -30,7 +30,7 @@ Proof.
   assert (Hl : lead_ok p [] (pneed p)) by (apply lead_plain; apply ws_nil).
   assert (H0 : forall x, x + len (@nil Z) = x) by (intros; rewrite len_nil; lia).
   destruct Hs as [c r state Htop Hk|c r state Htop Hneed Hws H44 H125 H93 H00|r state Htop Hs3 Hs1
-                 |s2 t Hst Hws H34 H44 H125 H123 H91|c r state Htop Hprd Hill].
+                 |s2 t Hst Hws H34 H44 H125|c r state Htop Hprd Hill].
   - destruct (rejects_closer_strong p a tok [] c r (pneed p) state Hc Hl Htop Hk)
       as (p' & a' & tok' & E & Hp & Hst & Hprd & Hc' & Hlen & _).
     rewrite H0 in Hp, Hlen. exists p', a', tok'. repeat (split; [assumption|]).
@@ -43,7 +43,7 @@ Proof.
       as (p' & a' & tok' & E & Hp & Hst & Hprd & Hc' & Hlen & _).
     rewrite H0 in Hp, Hlen. exists p', a', tok'. repeat (split; [assumption|]).
     rewrite Hst. eapply stuck_comma; eauto.
-  - destruct (rejects_nonstring_key_strong p a tok [] s2 (pneed p) t Hc Hl Hst Hws H34 H44 H125 H123 H91)
+  - destruct (rejects_nonstring_key_strong p a tok [] s2 (pneed p) t Hc Hl Hst Hws H34 H125 (or_introl H44))
       as (p' & a' & tok' & E & Hp & Hst' & Hprd & Hc' & Hlen & _).
     rewrite H0 in Hp, Hlen. exists p', a', tok'. repeat (split; [assumption|]).
     rewrite Hst'. eapply stuck_key; eauto.
